@@ -451,7 +451,9 @@ def render_jobs(run, thorough):
     two_pages = {"A": ("p1", "A"), "B": ("p2", "B")}
     same_page = {"A": ("p1", "A"), "B": ("p1", "B")}
     three = {"A": ("p1", "A"), "B": ("p2", "B"), "C": ("p1", "C")}
-    k = 10 if thorough else 1
+    # thorough = 5x the quick schedule budgets of every line-level family (complete exploration is kept for the lock-level
+    # tier of harness/c16.py only): the tier must finish in about 20 minutes on a moderately loaded 16-core machine
+    k = m = 5 if thorough else 1
     add("r2-pages-random", two_pages, 2, 6, 2, "random", num=40 * k, p=0.02)
     add("r2-pages-pct", two_pages, 2, 6, 2, "pct", num=40 * k, depth=3, length=2500)
     add("r2-same-random", same_page, 1, 7, 2, "random", num=40 * k, p=0.03)
@@ -459,25 +461,25 @@ def render_jobs(run, thorough):
     add("r3-random", three, 2, 5, 2, "random", num=30 * k, p=0.02)
     add("r3-pct", three, 2, 5, 2, "pct", num=30 * k, depth=3, length=3500)
     add("r2-all-lines-pct", two_pages, 2, 4, 2, "pct", all_files=True, num=8 * k, depth=3, length=20000)
-    add("r2-tiny-pb1", same_page, 1, 1, 2, "pb", bound=1, limit=2500 if thorough else 100)
-    add("r2-tiny-pb2", same_page, 1, 1, 2, "pb", bound=2, limit=2500 if thorough else 60)
+    add("r2-tiny-pb1", same_page, 1, 1, 2, "pb", bound=1, limit=100 * m)
+    add("r2-tiny-pb2", same_page, 1, 1, 2, "pb", bound=2, limit=60 * m)
     add("r2-unbounded-random", two_pages, 2, 6, 0, "random", num=20 * k, p=0.05)
     # directed preemption-bound-1 sweeps: the first thread is preempted before EVERY line of the functions around one
     # check-then-set memo site while the other thread runs a complete first render
     cached_twice = [[("cached",), ("ctx",), ("cached",)]]
-    add("r2-memo-cache-pb1", same_page, 1, 0, 2, "pb", bound=1, limit=2000 if thorough else 400, bodies=cached_twice,
+    add("r2-memo-cache-pb1", same_page, 1, 0, 2, "pb", bound=1, limit=400 * m, bodies=cached_twice,
         hot=[["cache.py", None], ["template.py", "cache"], ["util.py", "__get__"], ["runtime.py", "cache"]])
-    add("r2-memo-template-pb1", same_page, 1, 0, 2, "pb", bound=1, limit=2000 if thorough else 100, bodies=[[("ns",), ("cached",)]],
+    add("r2-memo-template-pb1", same_page, 1, 0, 2, "pb", bound=1, limit=100 * m, bodies=[[("ns",), ("cached",)]],
         hot=[["template.py", "__init__"], ["template.py", "reserved_names"], ["template.py", "_get_module_info_for_template"],
              ["template.py", "get_module_source_metadata"], ["template.py", "_compile_text"], ["util.py", "__get__"]])
-    add("r2-memo-lru-pb1", two_pages, 2, 0, 1, "pb", bound=1, limit=2000 if thorough else 100,
+    add("r2-memo-lru-pb1", two_pages, 2, 0, 1, "pb", bound=1, limit=100 * m,
         bodies=[[("inc",), ("ns",)], [("ns",), ("inc",)]],
         hot=[["lookup.py", "get_template"], ["lookup.py", "_load"], ["lookup.py", "_check"], ["util.py", "__getitem__"],
              ["util.py", "__setitem__"], ["util.py", "_manage_size"]])
-    add("r2-memo-lexer-pb1", two_pages, 2, 0, 2, "pb", all_files=True, bound=1, limit=1000 if thorough else 15,
+    add("r2-memo-lexer-pb1", two_pages, 2, 0, 2, "pb", all_files=True, bound=1, limit=15 * m,
         bodies=[[("ctx",)], [("inc",)]], hot=[["lexer.py", "match_reg"]])
     add("r3-memo-cache-pb1", {"A": ("p1", "A"), "B": ("p1", "B"), "C": ("p1", "C")}, 1, 0, 2, "pb", bound=1,
-        limit=2500 if thorough else 120, bodies=[[("cached",), ("ctx",)]],
+        limit=120 * m, bodies=[[("cached",), ("ctx",)]],
         hot=[["cache.py", None], ["template.py", "cache"], ["util.py", "__get__"]])
     # the lookup half under a bounded collection: three threads doing get_template / has_template / adjust_uri over more URIs
     # than the collection holds (BoundUnderConcurrency, no exception, nobody blocked)
@@ -498,11 +500,11 @@ def render_jobs(run, thorough):
     churners = {"A": ("gets1", "A"), "B": ("gets2", "B")}
     lru_hot = [["util.py", "__setitem__"], ["util.py", "_manage_size"], ["util.py", "<lambda>"], ["util.py", "<genexpr>"],
                ["util.py", "<listcomp>"], ["util.py", "__init__"]]
-    add("l2-lru-publish-trim-cap1-pb1", churners, 1, 1, 1, "pb", bound=1, limit=3000 if thorough else 500, extra={"gets": churn},
+    add("l2-lru-publish-trim-cap1-pb1", churners, 1, 1, 1, "pb", bound=1, limit=500 * m, extra={"gets": churn},
         hot=lru_hot)
-    add("l2-lru-publish-trim-cap2-pb1", churners, 1, 1, 2, "pb", bound=1, limit=3000 if thorough else 300, extra={"gets": churn},
+    add("l2-lru-publish-trim-cap2-pb1", churners, 1, 1, 2, "pb", bound=1, limit=300 * m, extra={"gets": churn},
         hot=lru_hot)
-    add("l2-second-chance-store-pb1", churners, 1, 1, 1, "pb", bound=1, limit=3000 if thorough else 300, extra={"gets": churn},
+    add("l2-second-chance-store-pb1", churners, 1, 1, 1, "pb", bound=1, limit=300 * m, extra={"gets": churn},
         hot=[["lookup.py", "_load"], ["lookup.py", "get_template"], ["lookup.py", "_check"], ["lookup.py", "adjust_uri"]])
     add("l3-gets-cap1-random", getters, 2, 2, 1, "random", num=30 * k, p=0.04, extra={"gets": lookups})
     add("l3-gets-cap2-pct", getters, 2, 2, 2, "pct", num=30 * k, depth=3, length=3000, extra={"gets": lookups})
@@ -515,9 +517,9 @@ def render_jobs(run, thorough):
     # constructing Template(filename=..., module_directory=...) themselves -- no lookup mutex there)
     modfile_hot = [["template.py", "_compile_from_file"], ["template.py", "_compile_module_file"], ["template.py", "__init__"],
                    ["lookup.py", "_load"]]
-    add("r2-same-moddir-pb1", same_page, 1, 0, 2, "pb", bound=1, limit=1500 if thorough else 100, bodies=[[("inc",), ("cached",)]],
+    add("r2-same-moddir-pb1", same_page, 1, 0, 2, "pb", bound=1, limit=100 * m, bodies=[[("inc",), ("cached",)]],
         extra={"moddir": True}, hot=modfile_hot)
-    add("r2-direct-moddir-pb1", same_page, 1, 0, 2, "pb", bound=1, limit=1500 if thorough else 120, bodies=[[("ctx",), ("inc",)]],
+    add("r2-direct-moddir-pb1", same_page, 1, 0, 2, "pb", bound=1, limit=120 * m, bodies=[[("ctx",), ("inc",)]],
         extra={"moddir": True, "direct": True}, hot=modfile_hot)
     add("r3-direct-moddir-random", {"A": ("p1", "A"), "B": ("p1", "B"), "C": ("p1", "C")}, 1, 4, 2, "random", num=20 * k, p=0.03,
         extra={"moddir": True, "direct": True})
@@ -527,7 +529,7 @@ def render_jobs(run, thorough):
         bodies=[[("ns",), ("cached",), ("ctx",), ("mod",), ("call",)]], extra={"fsc": False})
     add("r2-nocache-random", same_page, 1, 6, 2, "random", num=20 * k, p=0.03, extra={"cache_enabled": False})
     # <%page cached>: the first cached render of one template from two threads (Template.cache is created lazily)
-    add("r2-pagecache-pb1", {"A": ("pc", "A"), "B": ("pc", "B")}, 1, 0, 2, "pb", bound=1, limit=1500 if thorough else 200,
+    add("r2-pagecache-pb1", {"A": ("pc", "A"), "B": ("pc", "B")}, 1, 0, 2, "pb", bound=1, limit=200 * m,
         hot=[["cache.py", None], ["template.py", "cache"], ["util.py", "__get__"]])
     add("r3-pagecache-random", {"A": ("pc", "A"), "B": ("pc", "B"), "C": ("p1", "C")}, 1, 4, 2, "random", num=20 * k, p=0.03)
     # ---- shared objects other than the lookup -----------------------------------------------------------------------
@@ -537,17 +539,17 @@ def render_jobs(run, thorough):
         p=0.03, extra={"prefetch": True})
     add("r3-getdef-pct", {"A": ("p1#title", "A"), "B": ("p1#title", "B"), "C": ("p1", "C")}, 1, 5, 2, "pct", num=25 * k, depth=3,
         length=2500)
-    add("r2-nsmodule-pb1", same_page, 1, 0, 2, "pb", bound=1, limit=1500 if thorough else 100, bodies=[[("mod",), ("ctx",), ("mod",)]],
+    add("r2-nsmodule-pb1", same_page, 1, 0, 2, "pb", bound=1, limit=100 * m, bodies=[[("mod",), ("ctx",), ("mod",)]],
         hot=[["runtime.py", "__init__"], ["runtime.py", "__getattr__"], ["runtime.py", "_populate_self_namespace"]])
     # ---- put_string / put_template racing with get_template of the same URI (unbounded collection: LRU eviction of put
     # entries is C14's finding F05) ----------------------------------------------------------------------------------
     puts = {"gets1": [["put", "ps.html", 1], ["get", "inc.html", None], ["puttmpl", "ps.html", 2]],
             "gets2": [["getr", "ps.html", None], ["getr", "ps.html", None], ["getr", "ps.html", None]],
             "gets3": [["getr", "ps.html", None], ["get", "p1.html", None], ["getr", "ps.html", None]]}
-    add("l3-puts-pb2", getters, 1, 1, 0, "pb", bound=2, limit=3000 if thorough else 150, extra={"gets": puts},
+    add("l3-puts-pb2", getters, 1, 1, 0, "pb", bound=2, limit=150 * m, extra={"gets": puts},
         hot=[["lookup.py", "get_template"], ["lookup.py", "_load"], ["lookup.py", "_check"], ["lookup.py", "put_string"],
              ["lookup.py", "put_template"]])
-    add("l2-puts-load-pb1", {"A": ("gets1", "A"), "B": ("gets2", "B")}, 1, 1, 0, "pb", bound=1, limit=1500 if thorough else 300,
+    add("l2-puts-load-pb1", {"A": ("gets1", "A"), "B": ("gets2", "B")}, 1, 1, 0, "pb", bound=1, limit=300 * m,
         extra={"gets": puts},
         hot=[["lookup.py", "_load"], ["lookup.py", "put_string"], ["lookup.py", "put_template"]])
     add("l3-puts-random", getters, 1, 1, 0, "random", num=40 * k, p=0.05, extra={"gets": puts})
